@@ -72,7 +72,11 @@ def check_program(R, out, prog, ctx, optset, macros, case_extra, what="result", 
             again = R.run_text(text, optset, fresh=True)
         finally:
             R.time_limit /= 2
-        if again[0][0] == "timeout":
+        diverging = [m for m in ("cells", "hoist", "cells+hoist") if preds.get(m) == "diverges"]
+        if again[0][0] == "timeout" and diverging:
+            out.violation(KNOWN_KEY[diverging[0]].replace("C01", keyprefix), {"text": text, "expected": repr(preds["faithful"])[:400], "observed": "no result within the wall-clock bounds", "explained_by_defect_model": diverging[0] + " (the model recurses without bound)",
+                                                                              "optset": progrun.OPTION_SETS[optset]}, case)
+        elif again[0][0] == "timeout":
             out.violation(f"{keyprefix}/nontermination", {"text": text, "expected": repr(preds["faithful"])[:300], "time_limits_s": [R.time_limit, R.time_limit * 2], "trace_before_timeout": again[1][:40]}, case)
         else:
             out.incon("program hit the wall-clock bound once but finished on retry", case)
